@@ -262,6 +262,8 @@ def run(ctx):
         g = ctx.fn('Teakra::Interpreter::' + nm)
         ctx.inst(K4)
         for st in g['body'].get('body', []):
+            if st.get('k') == 'assert':
+                continue
             if not (st.get('k') == 'opcall' and st.get('op') == '=' and 'atomic' in str(st.get('cls', '')) or
                     st.get('k') == 'call' and st.get('name') == 'store'):
                 ctx.report(K4, g, st, 'Interpreter::' + nm.split('(')[0], 'signal function does something other than atomic stores')
